@@ -12,7 +12,7 @@ CFG = {
                 quick=dict(n=8, blocks=25, budget=0), thorough=dict(n=120, blocks=45, budget=0)),
     "C06": dict(mode="iso", directed=["twin_jail", "minstake_change", "restart_truncated", "checktx_not_delivered", "limiter_block", "vote_window_edges", "forced_unbond", "same_block_withdraw"],
                 quick=dict(n=2, blocks=6, budget=160), thorough=dict(n=24, blocks=10, budget=700, full=True)),
-    "C07": dict(mode="restart", directed=["tiny_stakes_slashed", "tiny_voter_slashed", "evm_rejected_then_more", "withdraw_without_issuance", "minstake_change", "evm_quiet_blocks", "restart_truncated", "valcount_change", "validator_churn", "vote_window_edges", "price_change", "many_unbonding", "forced_unbond", "twin_jail", "self_below_min", "slash_then_unstake"],
+    "C07": dict(mode="restart", directed=["restart_after_first_block", "tiny_stakes_slashed", "tiny_voter_slashed", "evm_rejected_then_more", "withdraw_without_issuance", "minstake_change", "evm_quiet_blocks", "restart_truncated", "valcount_change", "validator_churn", "vote_window_edges", "price_change", "many_unbonding", "forced_unbond", "twin_jail", "self_below_min", "slash_then_unstake"],
                 quick=dict(n=4, blocks=14, budget=14), thorough=dict(n=24, blocks=24, budget=45, full=True)),
 }
 
